@@ -596,6 +596,12 @@ def desugar_combinators(raws, facts):
                 if all(_plain_term(cb_["term"]) for cb_ in cbs_) and \
                         all(st_["k"] != "assign" or "use" in st_["rv"] or "ref" in st_["rv"] for cb_ in cbs_ for st_ in cb_["stmts"]):
                     interesting = True
+            # ... or that only *name* a failure (`map_err(|_| Failure::Missing)`, `ok_or_else(|| Failure::Empty)`): no call at all;
+            # which failure a path carries then is a fact of the parent's flow
+            if not interesting and nm in ("Result::map_err", "Option::ok_or_else"):
+                cbs_ = [cb_ for cb_ in clo_raw["blocks"] if not cb_["cleanup"]]
+                if all(cb_["term"]["k"] in ("return", "goto", "drop") for cb_ in cbs_):
+                    interesting = True
             if not interesting:
                 continue
             L = raw["locals"]
@@ -680,6 +686,7 @@ def desugar_combinators(raws, facts):
             B.append({"cleanup": False, "stmts": ost, "term": {"k": "goto", "t": exit_t, "line": line, "exp": None}})
             B.append({"cleanup": False, "stmts": [], "term": {"k": "unreachable", "line": line, "exp": None}})
             blk["term"] = {"k": "goto", "t": SW, "line": line, "exp": None, "desugared": nm}
+            raw.setdefault("thread_seeds", []).extend([dest["l"], vp["l"]])      # which variant came out is worth separating
             inline_call(raw, CALL, copy.deepcopy(clo_raw))
             consumed.append(clo_raw["path"])
             n += 1
@@ -1493,6 +1500,37 @@ def flatten_substructs(raws, facts, vocab):
                     walk(v)
         for blk in raw["blocks"]:
             walk(blk)
+        # 2b. a write of the whole group (`self.current = entry`) is a write of each of its fields
+        for blk in raw["blocks"]:
+            out_st = []
+            for st in blk["stmts"]:
+                if st["k"] == "assign" and st["place"]["p"] and ends_in_group(st["place"]) and ("use" in st.get("rv", {}) or st.get("rv", {}).get("agg", {}).get("adt") in groups):
+                    last = st["place"]["p"][-1]
+                    g = groups[last["ty"]]
+                    gfs = g["variants"][0]["fields"]
+                    rv = st["rv"]
+                    srcs = None
+                    if "agg" in rv and rv["agg"].get("adt") == last["ty"] and len(rv["agg"].get("ops", [])) == len(gfs):
+                        by_name = dict(zip(rv["agg"].get("fields", []), rv["agg"]["ops"]))
+                        if all(f2["name"] in by_name for f2 in gfs):
+                            srcs = [{"use": by_name[f2["name"]]} for f2 in gfs]
+                    elif "use" in rv and mir.op_place(rv["use"]) is not None:
+                        sp_ = mir.op_place(rv["use"])
+                        kind_ = "move" if "move" in rv["use"] else "copy"
+                        srcs = [{"use": {kind_: {"l": sp_["l"], "p": copy.deepcopy(sp_["p"]) + [{"f": j, "ty": f2["ty"], "name": f2["name"], "adt": last["ty"]}]}}}
+                                for j, f2 in enumerate(gfs)]
+                    if srcs is not None:
+                        for j, (f2, rv2) in enumerate(zip(gfs, srcs)):
+                            npl = {"l": st["place"]["l"], "p": copy.deepcopy(st["place"]["p"][:-1]) + [
+                                {"f": 1000 * (last["f"] + 1) + j, "ty": f2["ty"], "name": "%s.%s" % (last.get("name"), f2["name"]), "adt": last.get("adt")}]}
+                            st2 = dict(st)
+                            st2["place"] = npl
+                            st2["rv"] = rv2
+                            st2["split_group_write"] = True
+                            out_st.append(st2)
+                        continue
+                out_st.append(st)
+            blk["stmts"] = out_st
         # 3. aggregates of the outer struct: splice the group's fields when the group value is built here
         aggdef = {}
         for blk in raw["blocks"]:
@@ -1848,6 +1886,32 @@ TRANSFER = {"Try::branch": "branch", "Option::ok_or": "to_result", "Option::ok_o
             "Option::is_some": "is_good", "Result::is_ok": "is_good", "Option::is_none": "is_bad", "Result::is_err": "is_bad"}
 
 
+def _top_args(ty):
+    """top-level generic arguments of `path<A, B<C>, D>`"""
+    i = ty.find("<")
+    if i < 0 or not ty.endswith(">"):
+        return []
+    out, depth, cur = [], 0, ""
+    for ch in ty[i + 1:-1]:
+        if ch in "<([":
+            depth += 1
+        elif ch in ">)]":
+            depth -= 1
+        if ch == "," and depth == 0:
+            out.append(cur.strip())
+            cur = ""
+        else:
+            cur += ch
+    if cur.strip():
+        out.append(cur.strip())
+    return out
+
+
+def _same_err_type(res_ty, dest_ty):
+    a, b = _top_args(res_ty), _top_args(dest_ty)
+    return len(a) == 2 and len(b) == 2 and a[1] == b[1] and res_ty.startswith("core::result::Result<") and dest_ty.startswith("core::result::Result<")
+
+
 def _variant_of_agg(agg):
     if agg.get("kind") == "adt" and "variant" in agg:
         return agg["variant"]
@@ -1866,7 +1930,8 @@ def thread_variants(raw):
     def _threadable(l):
         ty = raw["locals"][l]["ty"] if l < len(raw["locals"]) else ""
         return ty.startswith(("core::option::Option<", "core::result::Result<", "core::ops::control_flow::ControlFlow<", "core::ops::ControlFlow<")) \
-            or ty in ("bool", "isize", "usize", "u8", "u32", "i32", "u64") or re.sub(r"<.*$", "", ty) in _CRATE_ENUMS
+            or ty in ("bool", "isize", "usize", "u8", "u32", "i32", "u64") or re.sub(r"<.*$", "", ty) in _CRATE_ENUMS \
+            or (ty.startswith("(") and any(e_ in ty for e_ in _CRATE_ENUMS))      # a tuple that carries a crate enum
     # only variant-like values are worth separating (a helper's Option / Result / bool return); a payload enum built inside a
     # loop would otherwise peel the loop (its variant is a "fact" on the back edge)
     relevant = {l for l in (raw.get("thread_seeds") or []) if _threadable(l)}
@@ -1874,11 +1939,61 @@ def thread_variants(raw):
         return raw
 
     def _payload_proj(pl):
-        """k for a place `(x as V).k` (exactly one downcast and one field), else None"""
+        """the field path (k1, k2, ..) of a place `(x as V).k1.k2` (downcasts and fields only, at least one field), else None"""
         pp = pl.get("p") or []
-        if len(pp) == 2 and isinstance(pp[0], dict) and "downcast" in pp[0] and isinstance(pp[1], dict) and "f" in pp[1]:
-            return pp[1]["f"]
-        return None
+        path = []
+        var = None
+        for e in pp:
+            if isinstance(e, dict) and "downcast" in e:
+                var = e["downcast"]
+                continue
+            if isinstance(e, dict) and "f" in e:
+                path.append((var, e["f"]))       # (variant it is a field of | None for a tuple / struct, field index)
+                var = None
+                continue
+            return None
+        return tuple(path) if path and var is None else None
+
+    _defcount = {}
+    for blk_ in blocks:
+        for st_ in blk_["stmts"]:
+            if st_["k"] == "assign" and not st_["place"]["p"]:
+                _defcount[st_["place"]["l"]] = _defcount.get(st_["place"]["l"], 0) + 1
+        t_ = blk_["term"]
+        if t_["k"] == "call" and not t_["dest"]["p"]:
+            _defcount[t_["dest"]["l"]] = _defcount.get(t_["dest"]["l"], 0) + 1
+
+    def _single_def(l):
+        return _defcount.get(l, 0) <= 1
+
+    _onedef = {}
+    for blk_ in blocks:
+        for st_ in blk_["stmts"]:
+            if st_["k"] == "assign" and not st_["place"]["p"]:
+                _onedef.setdefault(st_["place"]["l"], []).append(st_.get("rv", {}))
+
+    def _shared_ref(l):
+        ty_ = raw["locals"][l]["ty"] if l < len(raw["locals"]) else ""
+        return ty_.startswith("&") and not ty_.startswith("&mut")
+
+    def _ref_root(l, depth=0):
+        """the shared reference a local is a plain copy / reborrow of (single definitions all the way)"""
+        if depth > 12 or not _shared_ref(l) or not _single_def(l):
+            return l
+        ds_ = _onedef.get(l) or []
+        if len(ds_) != 1:
+            return l
+        rv_ = ds_[0]
+        y = None
+        if "use" in rv_:
+            yp = mir.op_place(rv_["use"])
+            if yp is not None and not yp["p"]:
+                y = yp["l"]
+        elif "ref" in rv_ and not rv_.get("mut") and rv_["ref"]["p"] == ["deref"]:
+            y = rv_["ref"]["l"]
+        if y is None or not _shared_ref(y) or not _single_def(y):
+            return l
+        return _ref_root(y, depth + 1)
 
     def _forget(facts, l):
         return {k: v for k, v in facts.items() if k != l and not (isinstance(k, tuple) and k[1] == l)}
@@ -1902,22 +2017,41 @@ def thread_variants(raw):
                 elif src is not None and _payload_proj(src) is not None and src["l"] in relevant and _threadable(st["place"]["l"]):
                     relevant.add(st["place"]["l"])
                     changed = True
+                # the discriminant of a crate enum behind a shared reference (`match *kind_ref`)
+                elif src is not None and "discr" in rv and src["p"] == ["deref"] and _shared_ref(src["l"]) \
+                        and re.sub(r"<.*$", "", raw["locals"][src["l"]]["ty"].lstrip("&").strip()) in _CRATE_ENUMS:
+                    relevant.add(st["place"]["l"])
+                    changed = True
+            # `opt.ok_or(Failure::X)` into a tracked result: which failure
+            t = blk["term"]
+            if t["k"] == "call" and not t["dest"]["p"] and t["dest"]["l"] in relevant and len(t["args"]) > 1:
+                fr_ = op_fn(t["func"])
+                if fr_ and TRANSFER.get(mir.tail2(fr_["path"])) == "to_result":
+                    ep_ = mir.op_place(t["args"][1])
+                    if ep_ is not None and not ep_["p"] and ep_["l"] not in relevant and re.sub(r"<.*$", "", raw["locals"][ep_["l"]]["ty"]) in _CRATE_ENUMS:
+                        relevant.add(ep_["l"])
+                        changed = True
             # ... and, backwards, the variant-like operands a tracked aggregate is built from (`Outer::V(inner)`)
             for st in blk["stmts"]:
                 if st["k"] == "assign" and not st["place"]["p"] and st["place"]["l"] in relevant and "agg" in st.get("rv", {}):
                     for op_ in st["rv"]["agg"].get("ops") or []:
                         p_ = mir.op_place(op_)
                         if p_ is not None and not p_["p"] and p_["l"] not in relevant and _threadable(p_["l"]) \
-                                and re.sub(r"<.*$", "", raw["locals"][p_["l"]]["ty"]) in _CRATE_ENUMS:
+                                and (re.sub(r"<.*$", "", raw["locals"][p_["l"]]["ty"]) in _CRATE_ENUMS or raw["locals"][p_["l"]]["ty"].startswith("(")):
                             relevant.add(p_["l"])
                             changed = True
             t = blk["term"]
             if t["k"] == "call" and not t["dest"]["p"] and t["dest"]["l"] not in relevant and t["args"]:
                 fr = op_fn(t["func"])
                 p = mir.op_place(t["args"][0])
+                if p is not None and not p["p"] and p["l"] not in relevant and _single_def(p["l"]):
+                    rds_ = _onedef.get(p["l"]) or []       # `x.is_none()`: the argument is a reference temporary `&x`
+                    if len(rds_) == 1 and "ref" in rds_[0] and not rds_[0]["ref"]["p"]:
+                        p = rds_[0]["ref"]
                 if fr and mir.tail2(fr["path"]) in TRANSFER and p is not None and not p["p"] and p["l"] in relevant:
                     relevant.add(t["dest"]["l"])
                     changed = True
+
 
     def ty_kind(l):
         ty = raw["locals"][l]["ty"]
@@ -1946,17 +2080,35 @@ def thread_variants(raw):
         # (read the source's facts before the destination is forgotten: `x = move x.0` does not occur, but `x = y` may alias)
         src_facts = facts
         facts = _forget(facts, l)
+        # what is known about `*r` travels with copies / reborrows of the shared reference r
+        rsrc = None
+        if "use" in rv:
+            rp_ = mir.op_place(rv["use"])
+            if rp_ is not None and not rp_["p"]:
+                rsrc = rp_["l"]
+        elif "ref" in rv and not rv.get("mut") and rv["ref"]["p"] == ["deref"]:
+            rsrc = rv["ref"]["l"]
+        if rsrc is not None and ("d", rsrc) in src_facts and raw["locals"][l]["ty"].startswith("&") and not raw["locals"][l]["ty"].startswith("&mut") \
+                and _single_def(l):
+            facts[("d", l)] = src_facts[("d", rsrc)]
         if l not in relevant:
             return facts
         if "agg" in rv:
             v = _variant_of_agg(rv["agg"])
             if v is not None:
                 facts[l] = ("v", v)
-                # what the payload operands are known to be (`Outer::V(Inner::W(..))`): facts on `(l as V).k`
+            if v is not None or rv["agg"].get("kind") == "tuple":
+                # what the payload operands are known to be (`Outer::V(Inner::W(..))`, `Some((e, Kind::W(..)))`): facts on
+                # `(l as V).k` and, transitively, on the payloads of the payloads
                 for k_, op_ in enumerate(rv["agg"].get("ops") or []):
                     p_ = mir.op_place(op_)
-                    if p_ is not None and not p_["p"] and p_["l"] in src_facts and src_facts[p_["l"]][0] == "v":
-                        facts[("p", l, k_)] = src_facts[p_["l"]]
+                    if p_ is None or p_["p"]:
+                        continue
+                    if p_["l"] in src_facts and src_facts[p_["l"]][0] == "v":
+                        facts[("p", l, (v, k_))] = src_facts[p_["l"]]
+                    for k2, v2 in list(src_facts.items()):
+                        if isinstance(k2, tuple) and k2[0] == "p" and k2[1] == p_["l"]:
+                            facts[("p", l, (v, k_)) + tuple(k2[2:])] = v2
         elif "use" in rv:
             op = rv["use"]
             c = op.get("const") if isinstance(op, dict) else None
@@ -1964,21 +2116,29 @@ def thread_variants(raw):
                 facts[l] = ("c", c["val"])
             else:
                 p = mir.op_place(op)
-                if p is not None and not p["p"] and p["l"] in src_facts:
-                    facts[l] = src_facts[p["l"]]
+                if p is not None and not p["p"] and (p["l"] in src_facts or any(isinstance(k2, tuple) and k2[1] == p["l"] for k2 in src_facts)):
+                    if p["l"] in src_facts:
+                        facts[l] = src_facts[p["l"]]
                     for k2, v2 in list(src_facts.items()):
                         if isinstance(k2, tuple) and k2[1] == p["l"]:
-                            facts[("p", l, k2[2])] = v2
+                            facts[("p", l) + tuple(k2[2:])] = v2
                     if "move" in op and p["l"] != l:
                         facts = _forget(facts, p["l"])       # moved-from: the value lives in the destination now
-                elif p is not None and _payload_proj(p) is not None and ("p", p["l"], _payload_proj(p)) in src_facts:
-                    facts[l] = src_facts[("p", p["l"], _payload_proj(p))]
+                elif p is not None and _payload_proj(p) is not None:
+                    pre = ("p", p["l"]) + _payload_proj(p)
+                    if pre in src_facts:
+                        facts[l] = src_facts[pre]
+                    for k2, v2 in list(src_facts.items()):
+                        if isinstance(k2, tuple) and len(k2) > len(pre) and k2[:len(pre)] == pre:
+                            facts[("p", l) + tuple(k2[len(pre):])] = v2
         elif "discr" in rv:
             src = rv["discr"]
             if not src["p"] and src["l"] in facts and facts[src["l"]][0] == "v":
                 facts[l] = ("c", facts[src["l"]][1])
-            elif _payload_proj(src) is not None and facts.get(("p", src["l"], _payload_proj(src)), ("", None))[0] == "v":
-                facts[l] = ("c", facts[("p", src["l"], _payload_proj(src))][1])
+            elif src["p"] == ["deref"] and facts.get(("d", _ref_root(src["l"])), ("", None))[0] == "v":
+                facts[l] = ("c", facts[("d", _ref_root(src["l"]))][1])
+            elif _payload_proj(src) is not None and facts.get(("p", src["l"]) + _payload_proj(src), ("", None))[0] == "v":
+                facts[l] = ("c", facts[("p", src["l"]) + _payload_proj(src)][1])
         return facts
 
     def key(facts):
@@ -2022,6 +2182,23 @@ def thread_variants(raw):
             return [t["t"]] if t.get("t") is not None else []
         return []
     succ_raw = [_ts(blk["term"]) for blk in blocks]
+    # (for the `*r` facts the reference local r need not be variant-like: its liveness is computed over all locals)
+    def _mentions_any(x, acc):
+        if isinstance(x, dict):
+            if "l" in x and "p" in x and isinstance(x["l"], int):
+                acc.add(x["l"])
+                return
+            for v in x.values():
+                _mentions_any(v, acc)
+        elif isinstance(x, list):
+            for v in x:
+                _mentions_any(v, acc)
+    live_any = []
+    for blk in blocks:
+        acc = set()
+        _mentions_any(blk["stmts"], acc)
+        _mentions_any(blk["term"], acc)
+        live_any.append(acc)
     live = [set(m) for m in ment]
     ch_ = True
     while ch_:
@@ -2030,6 +2207,9 @@ def thread_variants(raw):
             for sb in succ_raw[bi]:
                 if sb is not None and not live[sb] <= live[bi]:
                     live[bi] |= live[sb]
+                    ch_ = True
+                if sb is not None and not live_any[sb] <= live_any[bi]:
+                    live_any[bi] |= live_any[sb]
                     ch_ = True
     nodes = {}
     order = []
@@ -2060,8 +2240,25 @@ def thread_variants(raw):
                 # (`Outer::V(Inner::W)`: the arm still has to read which W it carries)
                 succs.append(("only", tgt, {k_: v_ for k_, v_ in facts.items() if isinstance(k_, tuple)}))
             else:
+                # what an arm learns: the scrutinee `d = discriminant(P)` was computed in this block, so on the edge of value v
+                # the variant of P is v - for `*r` behind a shared reference that is assigned once (the
+                # referent cannot change while the `&` lives): a later `match` on the same value is decided per arm
+                learn = None
+                if p is not None and not p["p"]:
+                    for st_ in reversed(blk["stmts"]):
+                        if st_["k"] == "assign" and not st_["place"]["p"] and st_["place"]["l"] == p["l"]:
+                            src_ = st_.get("rv", {}).get("discr")
+                            # (a plain local is not learned: its arms would stay apart for as long as it is mentioned, which
+                            # peels loops driven by it; its later matches are rare)
+                            if src_ is not None and src_["p"] == ["deref"] and raw["locals"][src_["l"]]["ty"].startswith("&") \
+                                    and not raw["locals"][src_["l"]]["ty"].startswith("&mut") and _single_def(src_["l"]):
+                                learn = ("d", _ref_root(src_["l"]))
+                            break
                 for v, bb in t["targets"]:
-                    succs.append(("case", bb, dict(facts), v))
+                    f3 = dict(facts)
+                    if learn is not None:
+                        f3[learn] = ("v", v)
+                    succs.append(("case", bb, f3, v))
                 succs.append(("otherwise", t["otherwise"], facts))
         elif k == "call":
             f2 = dict(facts)
@@ -2073,6 +2270,33 @@ def thread_variants(raw):
                 if fr is not None and d["l"] in relevant and t["args"]:
                     nm = mir.tail2(fr["path"])
                     a0 = mir.op_place(t["args"][0])
+                    # `x.is_none()` takes `&x`: look through a reference temporary that is assigned once
+                    if a0 is not None and not a0["p"] and a0["l"] not in facts and _single_def(a0["l"]):
+                        rds_ = _onedef.get(a0["l"]) or []
+                        if len(rds_) == 1 and "ref" in rds_[0] and not rds_[0]["ref"]["p"] and rds_[0]["ref"]["l"] in facts:
+                            a0 = rds_[0]["ref"]
+                    if nm in TRANSFER and TRANSFER[nm] == "to_result" and a0 is not None and not a0["p"]:
+                        # `opt.ok_or(e)`: *if* the result is Err its payload is e, *if* it is Ok its payload is opt's (whatever
+                        # the variant turns out to be)
+                        if len(t["args"]) > 1:
+                            ep_ = mir.op_place(t["args"][1])
+                            if ep_ is not None and not ep_["p"] and ep_["l"] in facts and facts[ep_["l"]][0] == "v":
+                                f2[("p", d["l"], (1, 0))] = facts[ep_["l"]]
+                        for k2, v2 in list(facts.items()):
+                            if isinstance(k2, tuple) and k2[0] == "p" and k2[1] == a0["l"] and len(k2) >= 3 and k2[2] == (1, 0):
+                                f2[("p", d["l"], (0, 0)) + tuple(k2[3:])] = v2
+                    if nm in TRANSFER and TRANSFER[nm] == "branch" and a0 is not None and not a0["p"] and ty_kind(a0["l"]) in ("option", "result"):
+                        # `x?`: the payloads travel along whatever the variant turns out to be - *if* Continue(x) it carries the
+                        # Ok / Some payload, *if* Break(r) the residual r is Err(e) with the same e / None
+                        kind_ = ty_kind(a0["l"])
+                        good_elem = (1, 0) if kind_ == "option" else (0, 0)      # Some(x) / Ok(x)
+                        for k2, v2 in list(facts.items()):
+                            if isinstance(k2, tuple) and k2[0] == "p" and k2[1] == a0["l"] and len(k2) >= 3:
+                                if k2[2] == good_elem:
+                                    f2[("p", d["l"], (0, 0)) + tuple(k2[3:])] = v2             # Continue(x)
+                                elif kind_ == "result" and k2[2] == (1, 0):
+                                    f2[("p", d["l"], (1, 0), (1, 0)) + tuple(k2[3:])] = v2     # Break(Err(e))
+                        f2[("p", d["l"], (1, 0))] = ("v", 1 if kind_ == "result" else 0)      # the residual: Err(..) / None
                     if nm in TRANSFER and a0 is not None and not a0["p"] and a0["l"] in facts and facts[a0["l"]][0] == "v":
                         kind = ty_kind(a0["l"])
                         v = facts[a0["l"]][1]
@@ -2095,6 +2319,11 @@ def thread_variants(raw):
                             f2[d["l"]] = ("v", 0)
                         elif kind == "result":
                             f2[d["l"]] = ("v", 1)
+                            # `Err(From::from(e))`: the same error value when the error types are the same type
+                            if a0 is not None and not a0["p"] and _same_err_type(raw["locals"][a0["l"]]["ty"], raw["locals"][d["l"]]["ty"]):
+                                for k2, v2 in list(facts.items()):
+                                    if isinstance(k2, tuple) and k2[0] == "p" and k2[1] == a0["l"] and len(k2) >= 3 and k2[2] == (1, 0):
+                                        f2[("p", d["l"]) + tuple(k2[2:])] = v2
             if t["t"] is not None:
                 succs.append(("t", t["t"], f2))
         elif k in ("drop", "assert"):
@@ -2106,7 +2335,8 @@ def thread_variants(raw):
         for s in succs:
             tb, f2 = s[1], s[2]
             f2 = {} if (b, tb) in back_edges else {l: v for l, v in f2.items()
-                                                   if (l[1] if isinstance(l, tuple) else l) in relevant and (l[1] if isinstance(l, tuple) else l) in live[tb]}
+                                                   if ((l[1] if isinstance(l, tuple) else l) in relevant or (isinstance(l, tuple) and l[0] == "d"))
+                                                   and ((isinstance(l, tuple) and l[0] == "d") or (l[1] if isinstance(l, tuple) else l) in live_any[tb])}
             kk = (tb, key(f2))
             if kk not in nodes:
                 if len(nodes) >= MAX_NODES:
